@@ -35,6 +35,11 @@ def matrix(cls, n, seed, k=0):
         A[0, 1:] = 0
         A[1:, 0] = 0
         return A
+    if cls == 'decoupled_c':      # complex, neither symmetric nor Hermitian, one uncoupled dof with a non-real diagonal entry
+        A = C + (0.9 * n + 0.7j) * np.eye(n)
+        A[0, 1:] = 0
+        A[1:, 0] = 0
+        return A
     if cls == 'decoupled_sym':
         A = R @ R.T + n * np.eye(n)
         A[n - 1, :n - 1] = 0
@@ -77,7 +82,7 @@ def class_dirs(cls, n, pattern=None):
                 out.append((f'cr{i}{j}', S.astype(complex)))
                 out.append((f'ci{i}{j}', 1j * S))
     else:
-        cplx = cls in ('gen_c', 'tri_upper_c')
+        cplx = cls in ('gen_c', 'tri_upper_c', 'decoupled_c')
         for i in range(n):
             for j in range(n):
                 if pattern is not None and not pattern[i, j]:
@@ -332,7 +337,7 @@ FAMILIES = {'Inverse': fam_inverse, 'LinSolve': fam_linsolve, 'SystemOfEquations
             'StaticCondensation': fam_statcond, 'EigenSolve': fam_eig_dense, 'EigenSolveSparse': fam_eig_sparse}
 
 DENSE_CLASSES = ['gen_r', 'sym_indef', 'spd', 'gen_c', 'hpd', 'herm_indef', 'csym', 'tri_lower', 'tri_upper_c',
-                 'decoupled', 'decoupled_sym']
+                 'decoupled', 'decoupled_sym', 'decoupled_c']
 
 
 def lattice(tier, seed):
@@ -340,7 +345,7 @@ def lattice(tier, seed):
     for cls in DENSE_CLASSES:
         yield dict(fam='Inverse', cls=cls, n=3)
     for cls in DENSE_CLASSES:
-        cplxA = cls in ('gen_c', 'hpd', 'herm_indef', 'csym', 'tri_upper_c')
+        cplxA = cls in ('gen_c', 'hpd', 'herm_indef', 'csym', 'tri_upper_c', 'decoupled_c')
         for storage in ('dense', 'csc') + (() if q else ('csr',)):
             for shape in ('vec', 'col', 'blk'):
                 for rc in (False, True):
